@@ -258,13 +258,29 @@ class EngineBase(PathMgr):
         if c is not None and c.builtin and c.name == 'object':
             c = None
         if c is None:
+            # a bound the solver derived earlier under a prefix of the current path condition is still valid
+            hit = self.cls_cache.get(smt.simp(v).get_id())
+            if hit is not None and hit[0] <= len(self.pc):
+                self.set_class(v, hit[1], exact=hit[2])
+                return hit[1]
             # last resort: ask the solver for a unique class among those touched on this path
             if self.kind_of(v, force=True) != 'ref':
                 c = self.class_of(v)
                 if c is not None:
                     return c
             cands = []
-            for cid in sorted(self.classes_used, reverse=True):
+            order = sorted(self.classes_used, reverse=True)
+            # a model of the path condition names ONE class for v: only that class and its bases can be implied bounds
+            guess = self.model_class_guess(v)
+            if guess is not None:
+                for K in guess.mro():
+                    if K.name == 'object' or K.cid not in self.classes_used:
+                        continue
+                    if self.implied(self.sub_term(smt.cls_of(Val.r(v)), K)):
+                        cands.append(K)
+                        break                       # the most specific implied bound
+                order = [] if cands else order
+            for cid in order:
                 K = self.static_objs[cid]
                 if K.name == 'object':
                     continue
@@ -276,6 +292,7 @@ class EngineBase(PathMgr):
                     if K.is_subclass(best):
                         best = K
                 self.set_class(v, best, exact=False)
+                self.cls_cache[smt.simp(v).get_id()] = (len(self.pc), best, False)
                 return best
             # split by the classes this value was tested against with isinstance (upper bounds)
             vid = smt.simp(v).get_id()
@@ -307,6 +324,28 @@ class EngineBase(PathMgr):
                     return K
             self.unsupported(f'class of value unknown: {what} [{str(smt.simp(v)).replace(chr(10),' ')[-260:]}]')
         return c
+
+    def model_class_guess(self, v):
+        """the class some model of the current path condition gives to v (None if unknown there)"""
+        m = self.model_cache[-1] if self.model_cache else None
+        if m is None:
+            s = self._sync_solver()
+            if s.check() != z3.sat:
+                return None
+            try:
+                m = s.model()
+                self.model_cache.append(m)
+            except z3.Z3Exception:
+                return None
+        try:
+            cid = m.eval(smt.cls_of(Val.r(v)), model_completion=True)
+        except z3.Z3Exception:
+            return None
+        if not z3.is_int_value(cid):
+            return None
+        K = self.static_objs.get(cid.as_long())
+        from .index import ClassInfo
+        return K if isinstance(K, ClassInfo) else None
 
     # ------------------------------------------------------------------ truthiness
     def truthy(self, v):
